@@ -144,6 +144,17 @@ type ghComment struct {
 	Line int    `json:"line"`
 	Side string `json:"side"`
 	Body string `json:"body"`
+	// GitHub marked the comment OUTDATED (the hunk it was attached to was rewritten by a later push): "line": null
+	Outdated bool `json:"-"`
+}
+
+// what the API returns for a comment
+func (c ghComment) wire() map[string]any {
+	m := map[string]any{"id": c.ID, "path": c.Path, "side": c.Side, "body": c.Body, "line": c.Line}
+	if c.Outdated {
+		m["line"] = nil
+	}
+	return m
 }
 
 type fakeGitHub struct {
@@ -169,9 +180,9 @@ func (f *fakeGitHub) ServeHTTP(w http.ResponseWriter, r *http.Request) {
 		}
 		json.NewEncoder(w).Encode(out)
 	case p == "/repos/o/r/pulls/1/comments" && r.Method == http.MethodGet:
-		out := f.comments
-		if out == nil {
-			out = []ghComment{}
+		out := []map[string]any{}
+		for _, c := range f.comments {
+			out = append(out, c.wire())
 		}
 		json.NewEncoder(w).Encode(out)
 	case p == "/repos/o/r/pulls/1/comments" && r.Method == http.MethodPost:
@@ -271,7 +282,11 @@ func glRaw(notes []glNote) []string {
 func ghRaw(cs []ghComment) []string {
 	var out []string
 	for _, c := range cs {
-		out = append(out, coqEC(c.Path, c.Line, c.Body))
+		line := c.Line
+		if c.Outdated {
+			line = 0 // what List reports for "line": null
+		}
+		out = append(out, coqEC(c.Path, line, c.Body))
 	}
 	return out
 }
@@ -390,6 +405,23 @@ func c17GitLabScenario(r *rand.Rand, rep *runReport, cw *caseWriter, cid int, k 
 			f.notes = append(f.notes, glNote{DiscID: fmt.Sprintf("x%d", id), NoteID: id, AuthorID: 99, Body: p.Text, HasPos: true, OldPath: p.Path, NewPath: p.Path, NewLine: p.Line})
 			foreignIDs = append(foreignIDs, id)
 		}
+	}
+	// notes of pint's own that equal a pending comment in all but one field (line, text, path): stale, to be replaced
+	for i, p := range pend {
+		if p.Path != path || r.Intn(4) > 0 {
+			continue
+		}
+		n := glNote{DiscID: fmt.Sprintf("o%d", i), NoteID: 40 + i, AuthorID: 7, Body: p.Text, HasPos: true, OldPath: p.Path, NewPath: p.Path, NewLine: p.Line}
+		switch r.Intn(3) {
+		case 0:
+			n.NewLine++
+		case 1:
+			n.Body += " (edited)"
+		default:
+			n.OldPath, n.NewPath = "rules/renamed.yml", "rules/renamed.yml"
+		}
+		f.notes = append(f.notes, n)
+		rep.hist("gitlab:initial-one-field-off-copy")
 	}
 	if r.Intn(3) == 0 {
 		f.notes = append(f.notes, glNote{DiscID: "f5", NoteID: 95, AuthorID: 7, Body: "old comment on a removed file", HasPos: true, OldPath: "rules/gone.yml", OldLine: 2})
@@ -512,6 +544,30 @@ func c17GitHubScenario(r *rand.Rand, rep *runReport, cw *caseWriter, cid int, k 
 	if r.Intn(2) == 0 {
 		f.comments = append(f.comments, ghComment{ID: 92, Body: "a comment without a path"})
 	}
+	// comments that equal what pint would post for a pending comment in all but ONE field IsEqual reads: no line at all
+	// (outdated), the neighbouring line, an edited text.  None of them covers the problem.
+	fixLine := func(p memPending) int {
+		_, l := reporter.VerifGithubFix(f.files, reporter.VerifNewPending(p.Path, p.Text, p.Line, p.Before))
+		return l
+	}
+	for i, p := range pend {
+		if p.Path != path || r.Intn(3) > 0 || fixLine(p) <= 0 {
+			continue // (a garbage hunk header can put the comment on "line 0", which is what a line-less comment looks like)
+		}
+		c := ghComment{ID: int64(60 + i), Path: p.Path, Line: fixLine(p), Body: p.Text}
+		switch r.Intn(4) {
+		case 0, 1:
+			c.Outdated = true
+			rep.hist("github:initial-outdated-copy")
+		case 2:
+			c.Line++
+			rep.hist("github:initial-copy-on-next-line")
+		default:
+			c.Body += " (edited)"
+			rep.hist("github:initial-copy-with-other-text")
+		}
+		f.comments = append(f.comments, c)
+	}
 	store0 := ghRaw(f.comments)
 	srv := httptest.NewServer(f)
 	defer srv.Close()
@@ -545,9 +601,12 @@ func c17GitHubScenario(r *rand.Rand, rep *runReport, cw *caseWriter, cid int, k 
 		rep.hist("github:with-path-outside-pr")
 	}
 	hasDiffLines := len(reporter.VerifParseDiffLines(diff)) > 0
+	// "covered" is judged independently of the reporter's IsEqual: a comment at the problem's file and (fixed) line carrying its
+	// text; a comment GitHub shows without a line (outdated) is attached to nothing
 	covered := func(p memPending) bool {
+		want := fixLine(p)
 		for _, c := range f.comments {
-			if reporter.VerifGithubIsEqual(f.files, reporter.VerifNewExisting(c.Path, c.Body, c.Line, nil), reporter.VerifNewPending(p.Path, p.Text, p.Line, p.Before)) {
+			if c.Path == p.Path && !c.Outdated && c.Line == want && strings.Trim(c.Body, "\n") == strings.Trim(p.Text, "\n") {
 				return true
 			}
 		}
@@ -579,4 +638,43 @@ func c17GitHubScenario(r *rand.Rand, rep *runReport, cw *caseWriter, cid int, k 
 		}
 	}
 	rep.sample(map[string]any{"kind": "github-server", "rounds": sc.Rounds, "pending": len(pend), "budget": budget})
+
+	// ---- history: a push rewrites the hunks, GitHub marks pint's comments OUTDATED (no line any more); the problems persist.
+	// The reporter must attach fresh comments to the problems' lines (ceil(n/m) runs), and then stop.
+	if !hasDiffLines || r.Intn(2) == 0 {
+		return
+	}
+	for _, p := range pend {
+		if p.Path == path && fixLine(p) <= 0 {
+			return
+		}
+	}
+	for i := range f.comments {
+		if f.comments[i].ID > 100 {
+			f.comments[i].Outdated = true
+		}
+	}
+	sc2 := c17SrvScenario{Platform: "github-after-push", Diff: diff, Path: path, Budget: budget, Reports: reps, Pending: pend, Initial: []string{"all of pint's comments outdated by a push"}}
+	store1 := ghRaw(f.comments)
+	for q := 0; q < need+1; q++ {
+		f.posts = nil
+		if err := reporter.Submit(context.Background(), summary, gh, false); err != nil {
+			rep.fail(fmt.Sprintf("srv%d-push", k), "GitHub: Submit failed against the fake API: "+err.Error(), sc2)
+			return
+		}
+		sc2.Rounds = append(sc2.Rounds, c17SrvRound{Posts: len(f.posts), Store: len(f.comments), View: ghRaw(f.comments)})
+	}
+	sc2.Store = f.comments
+	cw.add(c17ServerCase(cid+100000, false, path, diff, budget, pend, len(reps), "", store1, sc2.Rounds))
+	rep.count(fmt.Sprintf("%+v", sc2), sc2.Rounds[0].Posts > 0)
+	rep.hist("kind=github-server-after-push")
+	for _, p := range pend {
+		if p.Path == path && !covered(p) {
+			rep.fail(fmt.Sprintf("srv%d-push", k), fmt.Sprintf("GitHub: after a push that outdated pint's comments and %d more runs with maxComments=%d the problem on %s:%d has no comment attached to its line (only outdated ones)", len(sc2.Rounds), budget, p.Path, p.Line), sc2)
+			return
+		}
+	}
+	if l2 := sc2.Rounds[len(sc2.Rounds)-1]; l2.Posts > 0 {
+		rep.fail(fmt.Sprintf("srv%d-push", k), fmt.Sprintf("GitHub: run %d after the push, nothing deferred, still created %d comment(s)", len(sc2.Rounds), l2.Posts), sc2)
+	}
 }
